@@ -361,7 +361,7 @@ def check(rep: Any, tier: str, seed: int) -> bool:
     rng = random.Random(seed * 7919 + 95)
     big = tier == "thorough"
     t_all = time.time()
-    cases, gstats = gen_sessions(rng, 30 if big else 6, 10 if big else 2)
+    cases, gstats = gen_sessions(rng, 60 if big else 6, 20 if big else 2)
     found = False
     obs, khs, terms = [], [], []
     t0 = time.time()
